@@ -18,11 +18,16 @@ class P:
     items: list = field(default_factory=list)
     name: str = ""
 
+    @property
+    def tags(self):
+        """a partially ordered value (frozenset): <= is the subset relation"""
+        return frozenset(self.items)
+
     def __repr__(self):
         return f"P{self.name}(a={self.a},b={self.b},items={self.items})"
 
 
-OPS = {"==": operator.eq, "!=": operator.ne, "<": operator.lt, ">=": operator.ge}
+OPS = {"==": operator.eq, "!=": operator.ne, "<": operator.lt, ">=": operator.ge, "<=": operator.le, ">": operator.gt}
 
 
 @symbolic_function
@@ -240,6 +245,11 @@ def atoms(vars_=("x", "y")):
                 ("contains", ("attr", b, "items"), ("attr", a, "a")), ("pred", ("attr", a, "a"), ("attr", b, "b")),
                 ("cmp", "!=", ("var", a), ("var", b))]
     return out
+
+
+def partial_order_atoms():
+    return [("cmp", "<=", ("attr", "x", "tags"), ("attr", "y", "tags")), ("cmp", "<", ("attr", "x", "tags"), ("attr", "y", "tags")),
+            ("cmp", ">=", ("attr", "x", "tags"), ("attr", "y", "tags")), ("cmp", ">", ("attr", "y", "tags"), ("attr", "x", "tags"))]
 
 
 def int_atoms():
